@@ -1,0 +1,8 @@
+//go:build !verif
+
+package reorgdetector
+
+import "sync"
+
+// newHeadersCacheLock is the lock that serialises the header requests of one reorg check (see verif_hooks_on.go).
+func newHeadersCacheLock() sync.Locker { return &sync.Mutex{} }
